@@ -551,8 +551,57 @@ def search(ctx, res, broken):
     return found
 
 
+def _listed_inputs():
+    from harness.framework import load_findings, canon
+    return {canon(e['input']) for e in load_findings(PROP) if 'input' in e}
+
+
+def doc_valid(t):
+    """documents the generator can produce: non-empty XML names, string attribute values / text"""
+    import re
+    name = re.compile(r'^[A-Za-z_][A-Za-z0-9_.-]*$')
+    def ok(n):
+        if not isinstance(n, dict):
+            return False
+        if 'e' in n:
+            e = n['e']
+            if not (isinstance(e, list) and len(e) == 2 and isinstance(e[0], str) and isinstance(e[1], str) and name.match(e[1])):
+                return False
+            seen = set()
+            for a in n.get('a', []):
+                if not (isinstance(a, list) and len(a) == 3 and all(isinstance(x, str) for x in a) and name.match(a[1])):
+                    return False
+                if (a[0], a[1]) in seen:
+                    return False
+                seen.add((a[0], a[1]))
+            ks = n.get('k', [])
+            if any('t' in a and 't' in b for a, b in zip(ks, ks[1:])):
+                return False      # adjacent text nodes are one text node in XPath's data model
+            return all(ok(k) for k in ks)
+        if 't' in n:
+            return isinstance(n['t'], str) and n['t'] != ''
+        if 'c' in n:
+            return isinstance(n['c'], str)
+        if 'p' in n:
+            return isinstance(n['p'], list) and len(n['p']) == 2 and bool(name.match(n['p'][0] or ''))
+        return False
+    try:
+        return 'e' in t and ok(t)
+    except Exception:  # noqa
+        return False
+
+
 def replay(ctx, case):
+    """the oracle on one case. A case that is not a recorded input is judged only inside the oracle's domain (a
+    document the generator can produce, outside the zones of the listed findings) - the shrinker must not walk a
+    failing input of a changed tree into a zone where the unchanged tree fails too."""
     if isinstance(case.get('doc'), str):
         raise ValueError('doc must be a tree')
-    f, _ = oracle_case(case)
+    from harness.framework import canon
+    listed = canon(case) in _listed_inputs()
+    if not listed and 'doc' in case and not doc_valid(case['doc']):
+        return None
+    f, info = oracle_case(case)
+    if f and not listed and (info.get('zones', set()) & SKIP_ZONES):
+        return None
     return f
